@@ -1024,6 +1024,8 @@ func (e *CEnv) call(x *CExpr) CVal {
 			sig = fn.Signature
 		} else if parts := strings.Split(key, "."); len(parts) == 3 && e.fx.eng.pkgByName(parts[0]) != nil && ifaceMethodSig(e.fx.eng.pkgByName(parts[0]), parts[1], parts[2]) != nil {
 			sig = ifaceMethodSig(e.fx.eng.pkgByName(parts[0]), parts[1], parts[2])
+		} else if parts := strings.Split(key, "."); len(parts) == 3 && e.fx.eng.pkgByName(parts[0]) != nil && fieldFuncSig(e.fx.eng.pkgByName(parts[0]), parts[1], parts[2]) != nil {
+			sig = fieldFuncSig(e.fx.eng.pkgByName(parts[0]), parts[1], parts[2])
 		} else if i := strings.IndexByte(key, '.'); i > 0 {
 			// package-level function variable
 			if pkg := e.fx.eng.pkgByName(key[:i]); pkg != nil {
@@ -1453,6 +1455,26 @@ func ifaceMethodSig(pkg *types.Package, tname, m string) *types.Signature {
 	for i := 0; i < it.NumMethods(); i++ {
 		if it.Method(i).Name() == m {
 			return it.Method(i).Type().(*types.Signature)
+		}
+	}
+	return nil
+}
+
+// fieldFuncSig: signature of the function-typed field f of struct type pkg.T.
+func fieldFuncSig(pkg *types.Package, tname, f string) *types.Signature {
+	o := pkg.Scope().Lookup(tname)
+	if o == nil {
+		return nil
+	}
+	st, ok := o.Type().Underlying().(*types.Struct)
+	if !ok {
+		return nil
+	}
+	for i := 0; i < st.NumFields(); i++ {
+		if st.Field(i).Name() == f {
+			if sg, ok := st.Field(i).Type().Underlying().(*types.Signature); ok {
+				return sg
+			}
 		}
 	}
 	return nil
